@@ -76,6 +76,20 @@ def schema? (name : String) (pv : Nat) : Option Ty :=
   | "reverttodpos" => some revertToDPOS
   | "returnvotes" => some (returnVotes pv)
   | "recordsponsor" => some recordSponsor
+  | "registerasset" => some registerAsset
+  | "withdrawfromsidechain" => some (withdrawFromSideChain pv)
+  | "transfercrosschainasset" => some (transferCrossChainAsset pv)
+  | "dposillegalproposals" => some dposIllegalProposals
+  | "dposillegalvotes" => some dposIllegalVotes
+  | "sidechainillegaldata" => some sidechainIllegalData
+  | "crinfo" => some (crInfo pv)
+  | "unregistercr" => some (unregisterCR pv)
+  | "crcproposaltracking" => some (crcProposalTracking pv)
+  | "returnsidechaindepositcoin" => some (returnSideChainDepositCoin pv)
+  | "votesrealwithdraw" => some votesRealWithdraw
+  | "createnft" => some (createNFT pv)
+  | "nftdestroyfromsidechain" => some nftDestroyFromSideChain
+  | "proposalresult" => some recordProposalResult
   | _ => none
 
 def measured? : List String → Option Nat
